@@ -367,7 +367,7 @@ def offline_gap(ix, rep, mon):
     it = ast.unparse(loop.iter).replace(' ', '')
     tgt = ast.unparse(loop.target).replace(' ', '')
     defs = {}
-    for s in loop.body:
+    for s in ast.walk(loop):
         if isinstance(s, ast.Assign) and isinstance(s.targets[0], ast.Name):
             defs[s.targets[0].id] = s.value
     arg = c.args[0]
@@ -474,6 +474,34 @@ def offline_gap(ix, rep, mon):
                 why = 'the loop computes `%s`, not later minus earlier' % a
             else:
                 ok = True
+    if X is None and isinstance(loop.target, ast.Name) and isinstance(argn, ast.BinOp) and isinstance(argn.op, ast.Sub) and isinstance(argn.left, ast.Name) \
+            and argn.left.id == loop.target.id and isinstance(argn.right, ast.Attribute) and isinstance(argn.right.value, ast.Name) and argn.right.value.id == 'self':
+        # `for t in ts: if <seen one>: check(t - self.prev); self.prev = t`: the earlier stamp is carried in an attribute.  Within one data set that is
+        # every consecutive pair -- provided the attribute (and the counter that says "seen one") start afresh in this evaluate(): otherwise the
+        # first time-stamp of this data set is measured against the last one of the previous evaluation
+        prev_attr = argn.right.attr
+        updated = any(isinstance(q, ast.Assign) and any(isinstance(t_, ast.Attribute) and t_.attr == prev_attr for t_ in q.targets) and isinstance(q.value, ast.Name)
+                      and q.value.id == loop.target.id for q in ast.walk(loop))
+        guard_attrs = set()
+        for q in ast.walk(loop):
+            if isinstance(q, ast.If) and any(c is x for x in ast.walk(q)):
+                guard_attrs |= {x.attr for x in ast.walk(q.test) if isinstance(x, ast.Attribute) and isinstance(x.value, ast.Name) and x.value.id == 'self'}
+        before = []
+        for s_ in f.node.body:
+            if s_ is loop:
+                break
+            before.append(s_)
+        reinit = {t_.attr for s_ in before if isinstance(s_, ast.Assign) for t_ in s_.targets if isinstance(t_, ast.Attribute) and isinstance(t_.value, ast.Name) and t_.value.id == 'self'}
+        carried = sorted(a_ for a_ in (guard_attrs | {prev_attr}) if a_ not in reinit)
+        if not updated:
+            rep.fail('R-GAPLOOP', f.module.rel, sym, 'offline:in-loop', 'the earlier time-stamp `self.%s` is not advanced to the current one in the loop' % prev_attr, c.lineno)
+        elif carried:
+            rep.fail('R-GAPLOOP', f.module.rel, sym, 'offline:in-loop', 'the gaps are measured against `self.%s`, carried in the interpreter, and evaluate() does not start %s afresh: the first '
+                     'time-stamp of a data set is compared with the last one of the previous evaluate() -- two perfectly sampled data sets [0,1,2,3], [0,1,2,3] count one violation'
+                     % (prev_attr, ', '.join('self.' + a_ for a_ in carried)), c.lineno)
+        else:
+            rep.ok('R-GAPLOOP', f.module.rel, sym, 'offline:in-loop', 'one check per consecutive pair, the earlier stamp carried in self.%s and started afresh per data set' % prev_attr, c.lineno)
+        return
     if X is None:
         raise AnalysisError('%s: loop over `%s` is not one of the recognised consecutive-pair idioms' % (f.where, it))
     # X is the time column
